@@ -6,7 +6,10 @@ import Gql.Proofs.Monitor
 Property theorems only (lemmas: `Gql/Proofs/Proc.lean`).  Model: `Gql/Async/Proc.lean` — the
 asynchronous executor as a labelled transition system `Step` over an arbitrary finite field
 tree (`Cfg`); `SStep` is the serial (mutation) root.  Any enabled transition may fire, which is
-a superset of the schedules of asyncio.  The synchronous denotation `denF`/`dataOf` is the
+a superset of the schedules of asyncio.  `gather_with_cancel` is modelled as documented and as
+repaired on the tree (cancel the rest: `fail`; await them, bottom-up: `unwound`; re-raise:
+`failDone`); work that is abandoned WITHOUT cancellation (`settle_in_background`, `bg = true`)
+is the separate path.  The synchronous denotation `denF`/`dataOf` is the
 response of fully synchronous execution; it does not look at `gates` (which results are
 awaitable) nor at process states.
 
@@ -23,7 +26,7 @@ in the synchronous denotation too, a `failed` node is a non-null position whose 
 raises, a node that has not been resumed has untouched children, the children of a running
 node are all alive (started, not cancelled) — `InvN` spells the clauses out. -/
 theorem async_invariant (F c : Cfg) (ls : List Label) (hF : allIdle F = true)
-    (hrun : Run (Step false) (initQuery F) ls c)
+    (hrun : Run Step (initQuery F) ls c)
     (p : Path) (nn : Bool) (res : Res) (st : NodeSt) (ch : Cfg)
     (hp : nodeAt c p = some (nn, res, st, ch)) : InvN nn res st ch := by
   obtain ⟨_, _, _, _, _, _, hinv⟩ := run_root hF hrun
@@ -31,7 +34,7 @@ theorem async_invariant (F c : Cfg) (ls : List Label) (hF : allIdle F = true)
 
 /-- C03-1a. Every completed node carries the value of the synchronous denotation. -/
 theorem done_is_denotation (F c : Cfg) (ls : List Label) (hF : allIdle F = true)
-    (hrun : Run (Step false) (initQuery F) ls c)
+    (hrun : Run Step (initQuery F) ls c)
     (p : Path) (nn : Bool) (res : Res) (v : Val) (ch : Cfg)
     (hp : nodeAt c p = some (nn, res, .done v, ch)) : denN nn res ch = some v := by
   have h := async_invariant F c ls hF hrun p nn res (.done v) ch hp
@@ -42,23 +45,24 @@ theorem done_is_denotation (F c : Cfg) (ls : List Label) (hF : allIdle F = true)
 synchronous denotation predicts: a nulled position is nullable and its completion fails
 synchronously; a node that raised is non-null and its denotation raises. -/
 theorem errors_are_predicted (F c : Cfg) (ls : List Label) (hF : allIdle F = true)
-    (hrun : Run (Step false) (initQuery F) ls c)
+    (hrun : Run Step (initQuery F) ls c)
     (p : Path) (nn : Bool) (res : Res) (st : NodeSt) (ch : Cfg)
     (hp : nodeAt c p = some (nn, res, st, ch)) :
-    (st = .doneErr → nn = false ∧ innerDen res ch = none) ∧
-    (st = .failed → nn = true ∧ denN nn res ch = none) := by
+    (∀ b, st = .doneErr b → nn = false ∧ innerDen res ch = none) ∧
+    (∀ b, st = .failed b → nn = true ∧ denN nn res ch = none) := by
   have h := async_invariant F c ls hF hrun p nn res st ch hp
   constructor
-  · intro hs; subst hs; simpa only [InvN] using h
-  · intro hs; subst hs; simpa only [InvN] using h
+  · intro b hs; subst hs; simp only [InvN] at h; exact ⟨h.1, h.2.1⟩
+  · intro b hs; subst hs; simp only [InvN] at h; exact ⟨h.1, h.2.1⟩
 
-/-- C03-1c. Cancellation only occurs below an error: the parent of a cancelled task has
-handled an error (`doneErr`), raised one (`failed`), or was cancelled itself. -/
+/-- C03-1c. Cancellation only occurs below an error: the parent of a cancelled task (finished
+or still unwinding) is a gather one of whose children raised (`failing`, later `doneErr` /
+`failed`), or a cancelled task itself. -/
 theorem cancellation_only_below_error (F c : Cfg) (ls : List Label) (hF : allIdle F = true)
-    (hrun : Run (Step false) (initQuery F) ls c)
+    (hrun : Run Step (initQuery F) ls c)
     (p : Path) (nn : Bool) (res : Res) (st : NodeSt) (ch : Cfg)
     (hp : nodeAt c p = some (nn, res, st, ch)) (hc : hasCancelled ch = true) :
-    st = .doneErr ∨ st = .failed ∨ st = .cancelled :=
+    st = .failing ∨ (∃ b, st = .doneErr b) ∨ (∃ b, st = .failed b) ∨ st = .unwinding ∨ st = .cancelled :=
   cancelled_parent nn res st ch (async_invariant F c ls hF hrun p nn res st ch hp) hc
 
 /-- C03-2 `schedule_independent`. Every maximal run of a query (no transition enabled at the
@@ -67,7 +71,7 @@ continuations and cancellations interleave — ends with `data` equal to the syn
 and with exactly the nulled positions the tree predicts (`specNulledF`, a function of the tree
 alone: the nullable positions whose completion fails and which exist in `data`). -/
 theorem schedule_independent (F c : Cfg) (ls : List Label) (hF : allIdle F = true)
-    (hrun : Run (Step false) (initQuery F) ls c) (hfin : Final (Step false) c) :
+    (hrun : Run Step (initQuery F) ls c) (hfin : Final Step c) :
     rootData c = some (dataOf F) ∧ nulledF [] 0 c = specNulledF [] 0 (initQuery F) :=
   final_root hF hrun hfin
 
@@ -76,8 +80,8 @@ theorem schedule_independent (F c : Cfg) (ls : List Label) (hF : allIdle F = tru
 particular an arbitrary run agrees with the fully synchronous one (`syncOf F`). -/
 theorem assignment_independent (F₁ F₂ c₁ c₂ : Cfg) (ls₁ ls₂ : List Label)
     (h₁ : allIdle F₁ = true) (h₂ : allIdle F₂ = true) (hsame : shape F₁ = shape F₂)
-    (r₁ : Run (Step false) (initQuery F₁) ls₁ c₁) (f₁ : Final (Step false) c₁)
-    (r₂ : Run (Step false) (initQuery F₂) ls₂ c₂) (f₂ : Final (Step false) c₂) :
+    (r₁ : Run Step (initQuery F₁) ls₁ c₁) (f₁ : Final Step c₁)
+    (r₂ : Run Step (initQuery F₂) ls₂ c₂) (f₂ : Final Step c₂) :
     rootData c₁ = rootData c₂ ∧ nulledF [] 0 c₁ = nulledF [] 0 c₂ := by
   obtain ⟨d₁, n₁⟩ := final_root h₁ r₁ f₁
   obtain ⟨d₂, n₂⟩ := final_root h₂ r₂ f₂
@@ -87,8 +91,8 @@ theorem assignment_independent (F₁ F₂ c₁ c₂ : Cfg) (ls₁ ls₂ : List L
   exact ⟨by rw [d₁, d₂, hd], by rw [n₁, n₂, hn]⟩
 
 theorem agrees_with_synchronous (F c c' : Cfg) (ls ls' : List Label) (hF : allIdle F = true)
-    (r : Run (Step false) (initQuery F) ls c) (f : Final (Step false) c)
-    (r' : Run (Step false) (initQuery (syncOf F)) ls' c') (f' : Final (Step false) c') :
+    (r : Run Step (initQuery F) ls c) (f : Final Step c)
+    (r' : Run Step (initQuery (syncOf F)) ls' c') (f' : Final Step c') :
     rootData c = rootData c' ∧ nulledF [] 0 c = nulledF [] 0 c' :=
   assignment_independent F (syncOf F) c c' ls ls' hF (allIdle_syncOf F hF) (shape_syncOf F).symm r f r' f'
 
@@ -99,7 +103,7 @@ position. (The model records the positions where errors are handled, not the pat
 originate; an error path is at or below its handling position by construction, and a handling
 position that is not in `data` lies below one that is — that last step is `async_wf_error_paths` below.) -/
 theorem async_wf (F c : Cfg) (ls : List Label) (hF : allIdle F = true)
-    (hrun : Run (Step false) (initQuery F) ls c) (hfin : Final (Step false) c) :
+    (hrun : Run Step (initQuery F) ls c) (hfin : Final Step c) :
     (∀ v, rootData c = some v → v ≠ .null → wfVals F v) ∧
     (∀ p ∈ nulledF [] 0 c, ∃ q, p = 0 :: q ∧
       ((q = [] ∧ rootData c = some .null) ∨ ∃ v, rootData c = some v ∧ v.at q = some .null)) ∧
@@ -143,29 +147,31 @@ lie below another nulled position — some prefix of the position holds `null` i
 (An error path of the response is the position of the node where the error originated; such a
 node is `failed` or `doneErr`.) -/
 theorem async_wf_error_paths (F c : Cfg) (ls : List Label) (hF : allIdle F = true)
-    (hrun : Run (Step false) (initQuery F) ls c) (hfin : Final (Step false) c)
+    (hrun : Run Step (initQuery F) ls c) (hfin : Final Step c)
     (q : Path) (nn : Bool) (res : Res) (st : NodeSt) (ch : Cfg)
-    (hp : nodeAt c (0 :: q) = some (nn, res, st, ch)) (hst : st = .doneErr ∨ st = .failed) :
+    (hp : nodeAt c (0 :: q) = some (nn, res, st, ch)) (hst : (∃ b, st = .doneErr b) ∨ (∃ b, st = .failed b)) :
     ∃ q' v, q' <+: q ∧ rootData c = some v ∧ v.at q' = some .null := by
   obtain ⟨g, st0, F', hc, _, hlive, hinv⟩ := run_root hF hrun
   subst hc
-  have hq := stuck_quiet _ false hinv hfin
+  have hq := stuck_calm _ hinv hfin
   obtain ⟨hn, hc', _⟩ := hinv
   cases st0 with
   | idle => simp [NodeSt.live] at hlive
   | cancelled => simp [NodeSt.live] at hlive
-  | wait k => simp [topQuiet, NodeSt.active] at hq
-  | ready => simp [topQuiet, NodeSt.active] at hq
-  | run => simp [topQuiet, NodeSt.active] at hq
-  | failed => simp [InvN] at hn
-  | doneErr => exact ⟨[], .null, List.nil_prefix, rfl, rfl⟩
+  | unwinding => simp [NodeSt.live] at hlive
+  | wait k => simp [hasPending, NodeSt.pending] at hq
+  | ready => simp [hasPending, NodeSt.pending] at hq
+  | run => simp [hasPending, NodeSt.pending] at hq
+  | failing => simp [hasPending, NodeSt.pending] at hq
+  | failed bg => simp [InvN] at hn
+  | doneErr bg => exact ⟨[], .null, List.nil_prefix, rfl, rfl⟩
   | done v =>
     simp only [InvN] at hn
-    have hfv := hn.2.2.1 ⟨false, rfl⟩
+    have hfv := hn.2.2.1 ⟨.obj, rfl⟩
     cases q with
     | nil =>
       simp [nodeAt] at hp
-      rcases hst with h | h <;> simp [h] at hp
+      rcases hst with ⟨b, h⟩ | ⟨b, h⟩ <;> simp [h] at hp
     | cons j p =>
       simp only [nodeAt] at hp
       obtain ⟨r, hr1, hr2⟩ := errpos_null F' v j p nn res st ch hc' hfv hp hst
@@ -180,32 +186,37 @@ theorem mutation_serial (F c : Cfg) (ls : List Label) (hF : allIdle F = true)
   obtain ⟨⟨hi, hs⟩, _⟩ := srun_inv hrun h0
   exact ⟨hs, hi⟩
 
-/-- C03-4a (event form). Root field `j` is started only by a `start [j]` transition, which
-fires only when all root fields `i < j` have completed; inner transitions never start a root
-field. -/
-theorem mutation_start_after_completion (c c' : Cfg) (l : Label) (h : SStep c l c') :
-    (∀ j, l = .start [j] → j = firstIdle c ∧ completedBefore j c = true) ∧
-    ((∀ p, l ≠ .start p) → Step false c l c') := by
+/-- C03-4a `mutation_serial_strict` (event form, strict reading). Root field `j` is started
+only by a `start [j]` transition; inner transitions never start a root field. `start [j]` fires
+only when every root field `i < j` has completed (`done` / `doneErr`) AND nothing in its subtree
+is running or still unwinding from a cancellation - with the one exception of work below a
+position that completed while its children were still running (`bg = true`): work abandoned
+WITHOUT being cancelled (`settle_in_background`: a synchronous failure in a selection-set / list
+loop, an aborted async iteration) - `strictBefore`.  In particular every task that
+`gather_with_cancel` cancelled in subtree `i` has finished (`cancelled`) before `j` starts:
+`Step.failDone` waits for them. -/
+theorem mutation_serial_strict (F c c' : Cfg) (ls : List Label) (l : Label) (hF : allIdle F = true)
+    (hrun : Run SStep F ls c) (h : SStep c l c') :
+    (∀ j, l = .start [j] → j = firstIdle c ∧ strictBefore j c = true) ∧
+    ((∀ p, l ≠ .start p) → Step c l c') := by
+  have h0 : SInv F := ⟨allIdle_inv F hF, topIdle_serialOK F (allIdle_topIdle F hF)⟩
+  obtain ⟨⟨hi, _⟩, _⟩ := srun_inv hrun h0
   match h with
   | .inner _ _ _ hs =>
     exact ⟨fun j hj => absurd hj (step_no_start hs [j]), fun _ => hs⟩
-  | .start _ hp hi =>
+  | .start _ hp _ =>
     refine ⟨fun j hj => ?_, fun hne => absurd rfl (hne _)⟩
     simp at hj
     subst hj
-    exact ⟨rfl, prefixDone_completedBefore c hp⟩
+    exact ⟨rfl, prefixDone_strictBefore c hi hp⟩
 
-/-- C03-4b. A completed root field has no live task left (whatever still runs in its subtree
-is abandoned background work below a nulled position), it stays completed with the same value
-under every later transition.  How cancelled tasks count: in the model a task whose parent has
-failed is abandoned, and abandoned or cancelled tasks are not live; the model does not say that
-a cancelled task has *finished unwinding* before the root field completes (its `fail`
-transition does not wait, see `Step.fail`).  The strict reading of the property - every
-resolver coroutine of root field `i`, cancelled ones included, has finished before root field
-`i+1` starts - is evaluated on the implementation by the check's oracle. -/
+/-- C03-4b. A completed forest of fields is quiet in that strict sense, stays completed with
+the same values and stays quiet under every later transition (which can only happen inside
+abandoned, never cancelled work). -/
 theorem completed_field_is_quiet (f : Cfg) (v : Val) (hi : Inv f) (hv : forestVals f = some v) :
-    liveQuiet f = true ∧ ∀ l f', Step false f l f' → forestVals f' = some v :=
-  ⟨completed_liveQuiet f v hi hv, fun _ _ hs => step_forestVals hs v hv⟩
+    QuietF f = true ∧ ∀ l f', Step f l f' → forestVals f' = some v ∧ QuietF f' = true :=
+  ⟨completed_quiet f v hi hv,
+   fun _ _ hs => ⟨step_forestVals hs v hv, step_quiet hs (completed_quiet f v hi hv)⟩⟩
 
 /-- C03-4c. A maximal run of a serial root ends with the synchronous `data`. -/
 theorem mutation_schedule_independent (F c : Cfg) (ls : List Label) (hF : allIdle F = true)
@@ -215,9 +226,9 @@ theorem mutation_schedule_independent (F c : Cfg) (ls : List Label) (hF : allIdl
 /-- C03-5 `run_terminates`. Every transition strictly decreases `measure`; a run from a query
 has at most `measure (initQuery F)` transitions, a run of a serial root at most `measure F`. -/
 theorem run_terminates (F c : Cfg) (ls : List Label) (hF : allIdle F = true)
-    (hrun : Run (Step false) (initQuery F) ls c) : ls.length ≤ measure (initQuery F) := by
+    (hrun : Run Step (initQuery F) ls c) : ls.length ≤ measure (initQuery F) := by
   have hi := initQuery_inv F hF
-  have := run_measure hrun hi.1 hi.2
+  have := run_measure hrun hi.1
   omega
 
 theorem serial_run_terminates (F c : Cfg) (ls : List Label) (hF : allIdle F = true)
@@ -227,62 +238,78 @@ theorem serial_run_terminates (F c : Cfg) (ls : List Label) (hF : allIdle F = tr
   omega
 
 /-- C03-6 `monitor_sound`. Every operation the trace monitor of the correspondence check
-applies to the model (completion of an awaitable, resumption, completion / failure of a running
-node, delivery of a cancellation, at any position) is a transition of `Step`: a trace accepted
-by the monitor is a run of the transition system the theorems above are about. (The serial
-root's `start` is `SStep.start` by definition of `opStartSerial`; not part of this statement.) -/
+applies to the model, at any position - completion of an awaitable, resumption, completion of a
+running node, a gather cancelling its awaitables, abort of an async iteration, a gather
+re-raising after its cancelled awaitables finished, a cancelled task finishing - is a transition
+of `Step`; and its serial `start` move on the root wrapper is the `start` transition of `SStep`
+on the root fields: a trace accepted by the monitor is a run of the transition systems the
+theorems above are about. -/
 theorem monitor_sound (c c' : Cfg) (p : Path) :
-    (modifyAt opResolve false c p = some c' → ∃ l, Step false c l c') ∧
-    (modifyAt opFire false c p = some c' → ∃ l, Step false c l c') ∧
-    (modifyAt opComplete false c p = some c' → ∃ l, Step false c l c') ∧
-    (modifyAt opCancel false c p = some c' → ∃ l, Step false c l c') :=
-  ⟨modifyAt_sound _ opResolve_sound c false p c', modifyAt_sound _ opFire_sound c false p c',
-   modifyAt_sound _ opComplete_sound c false p c', modifyAt_sound _ opCancel_sound c false p c'⟩
+    (modifyAt opResolve c p = some c' → ∃ l, Step c l c') ∧
+    (modifyAt opFire c p = some c' → ∃ l, Step c l c') ∧
+    (modifyAt opComplete c p = some c' → ∃ l, Step c l c') ∧
+    (modifyAt opFail c p = some c' → ∃ l, Step c l c') ∧
+    (modifyAt opAbort c p = some c' → ∃ l, Step c l c') ∧
+    (modifyAt opFailDone c p = some c' → ∃ l, Step c l c') ∧
+    (modifyAt opUnwound c p = some c' → ∃ l, Step c l c') :=
+  ⟨modifyAt_sound _ opResolve_sound c p c', modifyAt_sound _ opFire_sound c p c',
+   modifyAt_sound _ opComplete_sound c p c', modifyAt_sound _ opFail_sound c p c',
+   modifyAt_sound _ opAbort_sound c p c', modifyAt_sound _ opFailDone_sound c p c',
+   modifyAt_sound _ opUnwound_sound c p c'⟩
+
+theorem monitor_serial_start_sound (j : Nat) (nn : Bool) (g : Nat) (res : Res) (ch rest c' : Cfg)
+    (h : opStartSerial j (.cons nn g res .run ch rest) = some c') :
+    ∃ ch', c' = .cons nn g res .run ch' rest ∧ SStep ch (.start [j]) ch' :=
+  opStartSerial_sound j nn g res ch rest c' h
 
 /-! ## Non-vacuity: a concrete request and a complete run
 
-`{ a b }` with `a : String` delivered by an awaitable (value 7) and `b : String!` raising
-synchronously... is too small to show propagation below the root, so: `{ a { x y } }` with `a`
-nullable and awaitable, `x : String!` awaitable and raising, `y : String` awaitable.
-The run resolves `a`, then `x` (which raises), `a` handles the error (nulled position `a`),
-`y` is cancelled; the final `data` is `{a: null}` and the nulled positions are `[a]`. -/
+`{ a { x y } }` with `a` nullable and awaitable, `x : String!` awaitable and raising,
+`y : String` awaitable.  The run resolves `a`, then `x` (which raises); the gather of `a` cancels
+`y` (`failing`, `y` unwinding), `y` finishes (`cancelled`), only then `a` handles the error
+(nulled position `a`); the final `data` is `{a: null}` and the nulled positions are `[a]`. -/
 
 def exKids : Cfg :=
   .cons true 1 .raise .idle .nil (.cons false 1 (.leaf 5) .idle .nil .nil)
-def exF : Cfg := .cons false 1 (.comp false) .idle exKids .nil
+def exF : Cfg := .cons false 1 (.comp .obj) .idle exKids .nil
 
 def exFinal : Cfg :=
-  .cons false 0 (.comp false) (.done (.cons .null .nil))
-    (.cons false 1 (.comp false) .doneErr
-      (.cons true 1 .raise .failed .nil (.cons false 1 (.leaf 5) .cancelled .nil .nil)) .nil) .nil
+  .cons false 0 (.comp .obj) (.done (.cons .null .nil))
+    (.cons false 1 (.comp .obj) (.doneErr false)
+      (.cons true 1 .raise (.failed false) .nil (.cons false 1 (.leaf 5) .cancelled .nil .nil)) .nil) .nil
 
 example : allIdle exF = true := by decide
 example : dataOf exF = .cons .null .nil ∧ specNulledF [] 0 (initQuery exF) = [[0, 0]] := by decide
 
-theorem exRun : Run (Step false) (initQuery exF)
+theorem exRun : Run Step (initQuery exF)
     [.continue [0], .resolve [0, 0], .continue [0, 0], .resolve [0, 0, 0], .continue [0, 0, 0],
-     .continue [0, 0], .deliverCancel [0, 0, 1], .continue [0]] exFinal := by
-  refine .step _ _ _ _ _ (Step.fire false false 0 (.comp false) exF .nil) ?_
-  refine .step _ _ _ _ _ (Step.child false false 0 (.comp false) .run _ .nil _ _ rfl
-    (Step.resolve false false 1 (.comp false) 0 exKids .nil)) ?_
-  refine .step _ _ _ _ _ (Step.child false false 0 (.comp false) .run _ .nil _ _ rfl
-    (Step.fire false false 1 (.comp false) exKids .nil)) ?_
-  refine .step _ _ _ _ _ (Step.child false false 0 (.comp false) .run _ .nil _ _ rfl
-    (Step.child false false 1 (.comp false) .run _ .nil _ _ rfl
-      (Step.resolve false true 1 .raise 0 .nil _))) ?_
-  refine .step _ _ _ _ _ (Step.child false false 0 (.comp false) .run _ .nil _ _ rfl
-    (Step.child false false 1 (.comp false) .run _ .nil _ _ rfl
-      (Step.fire false true 1 .raise .nil _))) ?_
-  refine .step _ _ _ _ _ (Step.child false false 0 (.comp false) .run _ .nil _ _ rfl
-    (Step.fail false false 1 (.comp false) _ .nil rfl)) ?_
-  refine .step _ _ _ _ _ (Step.child false false 0 (.comp false) .run _ .nil _ _ rfl
-    (Step.child false false 1 (.comp false) .doneErr _ .nil _ _ rfl
-      (Step.sibling true true 1 .raise .failed .nil _ _ _
-        (Step.cancel false 1 (.leaf 5) (.wait 1) .nil .nil rfl)))) ?_
-  refine .step _ _ _ _ _ (Step.complete false false 0 (.comp false) _ .nil (.cons .null .nil) rfl) ?_
+     .continue [0, 0], .deliverCancel [0, 0, 1], .continue [0, 0], .continue [0]] exFinal := by
+  refine .step _ _ _ _ _ (Step.fire false 0 (.comp .obj) exF .nil) ?_
+  refine .step _ _ _ _ _ (Step.child false 0 (.comp .obj) .run _ .nil _ _ rfl
+    (Step.resolve false 1 (.comp .obj) 0 exKids .nil)) ?_
+  refine .step _ _ _ _ _ (Step.child false 0 (.comp .obj) .run _ .nil _ _ rfl
+    (Step.fire false 1 (.comp .obj) exKids .nil)) ?_
+  refine .step _ _ _ _ _ (Step.child false 0 (.comp .obj) .run _ .nil _ _ rfl
+    (Step.child false 1 (.comp .obj) .run _ .nil _ _ rfl
+      (Step.resolve true 1 .raise 0 .nil _))) ?_
+  refine .step _ _ _ _ _ (Step.child false 0 (.comp .obj) .run _ .nil _ _ rfl
+    (Step.child false 1 (.comp .obj) .run _ .nil _ _ rfl
+      (Step.fire true 1 .raise .nil _))) ?_
+  -- the gather of `a` catches the failure of `x` and cancels `y`
+  refine .step _ _ _ _ _ (Step.child false 0 (.comp .obj) .run _ .nil _ _ rfl
+    (Step.fail false 1 (.comp .obj) _ .nil rfl)) ?_
+  -- `y` finishes its cancellation
+  refine .step _ _ _ _ _ (Step.child false 0 (.comp .obj) .run _ .nil _ _ rfl
+    (Step.child false 1 (.comp .obj) .failing _ .nil _ _ rfl
+      (Step.sibling true 1 .raise (.failed false) .nil _ _ _
+        (Step.unwound false 1 (.leaf 5) .nil .nil rfl)))) ?_
+  -- only now the gather re-raises: `a` is nulled
+  refine .step _ _ _ _ _ (Step.child false 0 (.comp .obj) .run _ .nil _ _ rfl
+    (Step.failDone false 1 (.comp .obj) _ .nil rfl)) ?_
+  refine .step _ _ _ _ _ (Step.complete false 0 (.comp .obj) _ .nil (.cons .null .nil) rfl) ?_
   exact .refl _
 
-theorem exFinal_final : Final (Step false) exFinal := by
+theorem exFinal_final : Final Step exFinal := by
   intro l c' h
   obtain ⟨_, _, _, _, _, _, hinv⟩ := run_root (F := exF) (by decide) exRun
   have hm := step_measure h hinv
@@ -292,8 +319,8 @@ theorem exFinal_final : Final (Step false) exFinal := by
 /-- `async_wf_error_paths` on the example: the error originates at `a.x` (position `[0,0,0]`,
 state `failed`), which is not in `data`; its prefix `a` holds `null`. -/
 example : ∃ q' v, q' <+: [0, 0] ∧ rootData exFinal = some v ∧ v.at q' = some .null :=
-  async_wf_error_paths exF exFinal _ (by decide) exRun exFinal_final [0, 0] true .raise .failed .nil
-    (by decide) (Or.inr rfl)
+  async_wf_error_paths exF exFinal _ (by decide) exRun exFinal_final [0, 0] true .raise (.failed false) .nil
+    (by decide) (Or.inr ⟨false, rfl⟩)
 
 /-- the hypotheses of `schedule_independent`, `async_wf`, `async_invariant` hold for
 this run, and the conclusion is the non-trivial response `{a: null}` with `a` nulled -/
@@ -310,13 +337,13 @@ example : Run SStep exM [.start [0], .resolve [0], .continue [0], .start [1]] ex
     dataCfg exMFinal = dataOf exM ∧ serialOK exMFinal = true := by
   refine ⟨?_, ?_⟩
   · refine .step _ _ _ _ _ (SStep.start exM rfl rfl) ?_
-    refine .step _ _ _ _ _ (SStep.inner _ _ _ (Step.resolve false false 1 (.leaf 1) 0 .nil _)) ?_
-    refine .step _ _ _ _ _ (SStep.inner _ _ _ (Step.fire false false 1 (.leaf 1) .nil _)) ?_
+    refine .step _ _ _ _ _ (SStep.inner _ _ _ (Step.resolve false 1 (.leaf 1) 0 .nil _)) ?_
+    refine .step _ _ _ _ _ (SStep.inner _ _ _ (Step.fire false 1 (.leaf 1) .nil _)) ?_
     refine .step _ _ _ _ _ (SStep.start _ rfl rfl) ?_
     exact .refl _
   · decide
 
 /-- `monitor_sound` is not vacuous: the monitor's first move on the example request -/
-example : ∃ c', modifyAt opFire false (initQuery exF) [0] = some c' := ⟨_, rfl⟩
+example : ∃ c', modifyAt opFire (initQuery exF) [0] = some c' := ⟨_, rfl⟩
 
 end Gql.Props.C03
